@@ -201,10 +201,12 @@ PROPS = {
     },
     "C17": {
         "level": "exploration",
-        "profiles": [{"name": "fleet-bucket", "weight": 2, "race": True, "chunk": 40}, {"name": "fleet-converge", "weight": 1, "race": True, "chunk": 40},
+        "profiles": [{"name": "fleet-bucket", "weight": 2, "race": True, "chunk": 40, "env": {"LSSIM_KEEP_HEALTH": 1}},
+                     {"name": "fleet-converge", "weight": 1, "race": True, "chunk": 40, "env": {"LSSIM_KEEP_HEALTH": 1}},
+                     {"name": "fleet-delete", "weight": 1, "race": True, "chunk": 40, "env": {"LSSIM_KEEP_HEALTH": 1}},
                      {"name": "conc-sim", "weight": 1, "chunk": 1}],
         "quick_s": 60,
-        "rule": "race part: the fleet-bucket (cleaners on, crashes, faults) and fleet-converge profiles run in the -race build; the scheduler hides its own hand-off from the detector "
+        "rule": "race part: the fleet-bucket (cleaners on, crashes, faults), fleet-converge and fleet-delete (tomb sweeper on in a third of the runs) profiles run in the -race build with the health tracker goroutines left running; the scheduler hides its own hand-off from the detector "
                 "(runtime.RaceDisable around park/release), so each run is a happens-before race check of exactly the interleaving it executed; only reports in which at least one of the two "
                 "conflicting accesses is made by repository code count; deadlock part (conc-sim): seeded API-level schedules over utils/topics (publish, subscribe, next, close incl. close "
                 "while a publish to that subscriber is in flight, failing Handle callback), utils/climit (release from any goroutine, repeatedly) and snapshot/storage (GetGlobal before, "
